@@ -777,5 +777,151 @@ theorem unmarkDeep_generated {ord : Ord} (ho : OrdOk ord) {X : SetOracle} (hX : 
       exact ⟨copyM ord n.marks, List.mem_map.mpr ⟨canonPVM ord (q, n.marks), List.mem_map.mpr ⟨_, he, rfl⟩, rfl⟩,
         (mem_copyM ho).mpr hm⟩
 
+/-! ### `ContainsMarked`: the function literal over the hand-written `Walk.walk` -/
+
+/-- the callback of `ContainsMarked` as the hand-written walk sees it: descend exactly below unmarked values -/
+def cmCb : Walk.WalkCb := fun _ _ v => .ok (!v.isMarked)
+
+def anyMarked (evs : List Walk.Visit) : Bool := evs.any fun e => e.2.isMarked
+
+theorem cm_func (ord : Ord) (st : Bool) (p : List PathStep) (v : Value) :
+    Value_ContainsMarked_func1 ord st p v = .ok (if v.isMarked then (true, false) else (st, true)) := by
+  simp only [Value_ContainsMarked_func1, IsMarked_tie, rbind_ok]
+  cases v.isMarked <;> rfl
+
+/-- the captured variable `ret` after a history: some visited value was marked -/
+theorem cm_replay (ord : Ord) : ∀ (log : List Walk.Visit) (s : Bool),
+    replayW (Value_ContainsMarked_func1 ord) s log = (s || anyMarked log)
+  | [], s => by simp [replayW, anyMarked]
+  | (p, v) :: rest, s => by
+    simp only [replayW, cm_func, after, cm_replay ord rest, anyMarked, List.any_cons]
+    cases v.isMarked <;> cases s <;> simp
+
+theorem cm_cb (ord : Ord) :
+    (fun log p v => (Value_ContainsMarked_func1 ord (replayW (Value_ContainsMarked_func1 ord) false log) p v).map (·.2)) =
+      cmCb := by
+  funext log p v
+  simp only [cm_func, cmCb, Res.map]
+  cases v.isMarked <;> rfl
+
+theorem anyMarked_append (a b : List Walk.Visit) : anyMarked (a ++ b) = (anyMarked a || anyMarked b) := by
+  simp [anyMarked, List.any_append]
+
+open Walk in
+theorem cm_walkKids (rec : WalkRec) : ∀ (cs : List (PathStep × Value)),
+    (∀ c ∈ cs, ∀ log path, ∃ evs, rec log path c.2 = (log ++ evs, .ok ()) ∧ anyMarked evs = c.2.containsMarked) →
+    ∀ log path, ∃ evs, walkKids rec log path cs = (log ++ evs, .ok ()) ∧
+      anyMarked evs = cs.any fun c => c.2.containsMarked
+  | [], _, log, path => ⟨[], by simp [walkKids], rfl⟩
+  | (s, c) :: rest, h, log, path => by
+    obtain ⟨e1, h1, a1⟩ := h (s, c) (by simp) log (path ++ [s])
+    obtain ⟨e2, h2, a2⟩ := cm_walkKids rec rest (fun c hc => h c (by simp [hc])) (log ++ e1) path
+    refine ⟨e1 ++ e2, ?_, ?_⟩
+    · simp only [walkKids, h1, h2, List.append_assoc]
+    · simp only [anyMarked_append, a1, a2, List.any_cons]
+
+open Walk in
+theorem seqKids_any (e : Ty) : ∀ (i : Nat) (vs : List Payload),
+    (seqKids e i vs).any (fun c => c.2.v.containsMarked) = Payload.containsMarkedL vs
+  | _, [] => rfl
+  | i, v :: vs => by simp only [seqKids, List.any_cons, Payload.containsMarkedL, seqKids_any e (i + 1) vs]
+
+open Walk in
+theorem mapKids_any (e : Ty) : ∀ (ks : List String) (vs : List Payload), ks.length = vs.length →
+    (mapKids e ks vs).any (fun c => c.2.v.containsMarked) = Payload.containsMarkedL vs
+  | [], [], _ => rfl
+  | [], _ :: _, h => by cases h
+  | _ :: _, [], h => by cases h
+  | k :: ks, v :: vs, h => by
+    simp only [mapKids, List.any_cons, Payload.containsMarkedL, mapKids_any e ks vs (by simpa using h)]
+
+open Walk in
+theorem tupKids_any : ∀ (i : Nat) (ts : List Ty) (vs : List Payload), ts.length = vs.length →
+    (tupKids i ts vs).any (fun c => c.2.v.containsMarked) = Payload.containsMarkedL vs
+  | _, [], [], _ => rfl
+  | _, [], _ :: _, h => by cases h
+  | _, _ :: _, [], h => by cases h
+  | i, t :: ts, v :: vs, h => by
+    simp only [tupKids, List.any_cons, Payload.containsMarkedL, tupKids_any (i + 1) ts vs (by simpa using h)]
+
+open Walk in
+theorem objKids_any : ∀ (ns : List String) (ts : List Ty) (vs : List Payload), ns.length = ts.length →
+    ts.length = vs.length → (objKids ns ts vs).any (fun c => c.2.v.containsMarked) = Payload.containsMarkedL vs
+  | [], [], [], _, _ => rfl
+  | [], _ :: _, _, h, _ => by cases h
+  | _ :: _, [], _, h, _ => by cases h
+  | [], [], _ :: _, _, h => by cases h
+  | _ :: _, _ :: _, [], _, h => by cases h
+  | n :: ns, t :: ts, v :: vs, h1, h2 => by
+    simp only [objKids, List.any_cons, Payload.containsMarkedL, objKids_any ns ts vs (by simpa using h1) (by simpa using h2)]
+
+open Walk in
+theorem setKids_any_false (e : Ty) : ∀ (ms : List Payload), (∀ m ∈ ms, m.containsMarked = false) →
+    (setKids e ms).any (fun c => c.2.v.containsMarked) = false
+  | [], _ => rfl
+  | m :: ms, h => by
+    simp only [setKids, List.any_cons, h m (by simp), Bool.false_or]
+    exact setKids_any_false e ms fun x hx => h x (by simp [hx])
+
+open Walk in
+/-- the members of an unmarked shaped value hold a mark exactly when the value does -/
+theorem children_any {X : SetOracle} (hX : IterPerm X) (v : Value) (hs : shapedV v = true) (hm : v.isMarked = false) :
+    (children X v).any (fun c => c.2.containsMarked) = v.containsMarked := by
+  obtain ⟨ty, p⟩ := v
+  cases ty <;> cases p <;>
+    simp only [shapedV, shaped, Bool.and_eq_true, Bool.false_eq_true, beq_iff_eq, decide_eq_true_eq,
+      Bool.not_eq_true'] at hs <;>
+    simp only [children, List.any_nil, Value.containsMarked, Payload.containsMarked, Value.isMarked,
+      Payload.isMarked, Bool.true_eq_false] at hm ⊢
+  · exact seqKids_any _ _ _
+  · rw [hs.1.2]
+    exact setKids_any_false _ _ fun m hm' => containsMarkedL_mem hs.1.2 m ((hX _ _ _).mem_iff.mp hm')
+  · exact mapKids_any _ _ _ hs.1.1
+  · exact tupKids_any _ _ _ hs.1.1
+  · exact objKids_any _ _ _ hs.1.1.1.1.2 hs.1.1.2
+
+open Walk in
+/-- **the walk of `ContainsMarked`**: it succeeds, and some visited value is marked exactly when the value
+contains a mark -/
+theorem cm_walkFuel {X : SetOracle} (hX : IterPerm X) : ∀ (f : Nat) (val : Value), val.v.depth < f →
+    shapedV val = true → ∀ log path, ∃ evs, walkFuel X cmCb f log path val = (log ++ evs, .ok ()) ∧
+      anyMarked evs = val.containsMarked
+  | 0, _, h, _, _, _ => by omega
+  | f + 1, val, hd, hs, log, path => by
+    by_cases hm : val.isMarked = true
+    · refine ⟨[(path, val)], by simp [walkFuel, cmCb, hm], ?_⟩
+      obtain ⟨t, p⟩ := val
+      cases p <;> simp_all [anyMarked, Value.isMarked, Payload.isMarked, Value.containsMarked, Payload.containsMarked]
+    · have hm' : val.isMarked = false := by simpa using hm
+      have hu : val.unmark = val := by
+        obtain ⟨t, p⟩ := val
+        cases p <;> simp_all [Value.isMarked, Payload.isMarked, Value.unmark, Payload.unmark1]
+      by_cases hn : (val.isNull || !val.isKnown) = true
+      · refine ⟨[(path, val)], by simp [walkFuel, cmCb, hm', hn], ?_⟩
+        obtain ⟨t, p⟩ := val
+        cases p <;> simp_all [anyMarked, Value.isMarked, Payload.isMarked, Value.containsMarked, Payload.containsMarked,
+          Value.isNull, Payload.isNull, Value.isKnown, Payload.isKnown, Payload.unmark1]
+      · have hkids := cm_walkKids (walkFuel X cmCb f) (children X val) (fun c hc log' path' =>
+          cm_walkFuel hX f c.2 (by
+            have := depth_lt_of_mem_members (children_mem hX _ _ hc)
+            omega) (children_shaped hX val hs c hc) log' path') (log ++ [(path, val)]) path
+        obtain ⟨evs, h1, h2⟩ := hkids
+        refine ⟨(path, val) :: evs, ?_, ?_⟩
+        · simp only [walkFuel, cmCb, hm', Bool.not_false, Bool.not_true, Bool.false_eq_true, if_false, hn, hu, h1,
+            List.append_assoc, List.singleton_append]
+        · simp only [anyMarked, List.any_cons, hm', Bool.false_or]
+          exact h2.trans (children_any hX val hs hm')
+
+open Walk in
+/-- **`ContainsMarked`** -/
+theorem ContainsMarked_tie (ord : Ord) {X : SetOracle} (hX : IterPerm X) (σ : Sched) (v : Value)
+    (hs : shapedV v = true) : Value_ContainsMarked ord X σ v = .ok v.containsMarked := by
+  obtain ⟨evs, h1, h2⟩ := cm_walkFuel hX (v.v.depth + 1) v (by omega) hs [] []
+  unfold Value_ContainsMarked MarksGo.walk
+  rw [cm_cb]
+  simp only [Walk.walk]
+  rw [h1]
+  simp [cm_replay, h2]
+
 end MarksFnsTie
 end CtyModel
